@@ -83,7 +83,7 @@ def main(argv=None):
             k = args.shards or (s.shards_quick if args.tier == 'quick' else s.shards_thorough)
             budget = s.budget_quick if args.tier == 'quick' else s.budget_thorough
             for shard in range(k):
-                jobs.append((prop_id, s.name, shard, n, common.derive_seed(seed, prop_id, s.name, shard), budget))
+                jobs.append((prop_id, s.name, shard, n, common.derive_seed(seed, prop_id, s.name, shard), budget, k))
         # longest first would need timing knowledge; keep declaration order, imap_unordered balances
         results = list(pool.imap_unordered(common.run_shard, jobs, chunksize=1))
 
@@ -118,8 +118,7 @@ def main(argv=None):
             samples.extend(r['samples'][:2])
         if r['harness_error']:
             harness_errors.append('%s shard %d: %s' % (r['sub'], r['shard'], r['harness_error']))
-        if r['failure']:
-            f = r['failure']
+        for f in (r.get('failures') or ([r['failure']] if r['failure'] else [])):
             rdir = os.path.join(common.REPLAY_DIR, prop_id)
             os.makedirs(rdir, exist_ok=True)
             h = '%08x' % (common.case_hash(f['case']) & 0xffffffff)
